@@ -7,6 +7,7 @@ use crate::engine::*;
 use crate::gen::*;
 use crate::print::*;
 use crate::props::c12::break_cfg;
+use crate::props::common::load_via_dig;
 use crate::real::*;
 
 pub struct C20;
@@ -16,7 +17,7 @@ impl Property for C20 {
         "C20"
     }
     fn rule(&self) -> &'static str {
-        "profile `layout`: a generated program - valid, or (1 in 4) broken by one grammar-breaking edit - in one case in eight with one literal replaced by a value in 2^63 .. 2^64-1 - printed twice from one token sequence: canonical (single blanks, LF, no comments; in a quarter of the cases without a line break behind the last line) and re-laid-out with every freedom the statement lists, all after the header line (blank space widened / tabs / CR / removed where adjacency is safe - between a symbol and anything, and between a number and a directly following X / Z / C entry, which lex as the same two tokens (`0X`, `12z`; not C after a hex literal) -, a CR before the LF of all or of some lines, trailing # comments, inserted blank and comment-only lines, literals rewritten in decimal / 0x / 0X either digit case / 0b / 0B / leading-zero octal). Oracle (metamorphic, no reference semantics): same Ok/Err from parsing, same from binding, and equal items from equally scripted runs (dynamic, and static when possible) except `line`, which must move exactly to where the printer put that row. Non-trivial: the two texts differ in >= 3 kinds of layout change including a radix change or a removed blank; distinct by both texts."
+        "profile `layout`: a generated program - valid, or (1 in 4) broken by one grammar-breaking edit - in one case in eight with one literal replaced by a value in 2^63 .. 2^64-1 - printed twice from one token sequence: canonical (single blanks, LF, no comments; in a quarter of the cases without a line break behind the last line) and re-laid-out with every freedom the statement lists, all after the header line (blank space widened / tabs / CR / removed where adjacency is safe - between a symbol and anything, and between a number and a directly following X / Z / C entry, which lex as the same two tokens (`0X`, `12z`; not C after a hex literal) -, a CR before the LF of all or of some lines, trailing # comments, inserted blank and comment-only lines, literals rewritten in decimal / 0x / 0X either digit case / 0b / 0B / leading-zero octal). One unbroken case in eight is also run with both texts embedded in .dig documents and loaded with load_test. Oracle (metamorphic, no reference semantics): same Ok/Err from parsing, same from binding, and equal items from equally scripted runs (dynamic, and static when possible) except `line`, which must move exactly to where the printer put that row. Non-trivial: the two texts differ in >= 3 kinds of layout change including a radix change or a removed blank; distinct by both texts."
     }
     fn cases(&self, tier: Tier) -> u64 {
         match tier {
@@ -28,7 +29,7 @@ impl Property for C20 {
         [400, 400, 60]
     }
     fn required_classes(&self) -> Vec<&'static str> {
-        vec!["reradixed", "removed-blank", "tabs-or-cr", "trailing-comment", "inserted-lines", "broken-program", "valid-program", "rows-compared", "static-compared", "number-joined-to-X/Z/C", "mixed-line-ends", "literal-beyond-i64", "canonical-text-without-final-newline"]
+        vec!["reradixed", "removed-blank", "tabs-or-cr", "trailing-comment", "inserted-lines", "broken-program", "valid-program", "rows-compared", "static-compared", "number-joined-to-X/Z/C", "mixed-line-ends", "literal-beyond-i64", "canonical-text-without-final-newline", "both-texts-loaded-from-dig-documents"]
     }
     fn run(&self, s: &Streams) -> CaseOut {
         let mut out = CaseOut::new();
@@ -101,6 +102,33 @@ impl Property for C20 {
         out.class_if(st.mixed_eol, "mixed-line-ends");
         out.nontrivial = st.kinds() >= 3 && (st.reradixed > 0 || st.removed_blanks > 0);
 
+        // One unbroken case in eight (if no signal is bidirectional) goes through .dig documents:
+        // both texts are embedded in a document each and loaded with load_test. The loader keeps
+        // the source verbatim, so the two tests relate exactly as the two texts do.
+        if !broken && dch.chance(1, 8) && !built.sigs.iter().any(|s| matches!(s.kind, crate::model::Kind::Bidir(_))) {
+            let a = load_via_dig(&r1.text, &built.sigs);
+            let b = load_via_dig(&r2.text, &built.sigs);
+            match (a, b) {
+                (Ok(Some(tc1)), Ok(Some(tc2))) => {
+                    out.class("both-texts-loaded-from-dig-documents");
+                    let spec = DriverSpec::honest(&built.sigs, 3, Palette::Small);
+                    let ra = run_real(&tc1, &built.sigs, &spec, &RunOpts { max_next: 200, ..Default::default() });
+                    let rb = run_real(&tc2, &built.sigs, &spec, &RunOpts { max_next: 200, ..Default::default() });
+                    let strip = |items: &[RealItem]| -> Vec<RealItem> {
+                        items.iter().map(|i| if let RealItem::Row(r) = i { RealItem::Row(RealRow { line: 0, ..r.clone() }) } else { i.clone() }).collect()
+                    };
+                    if ra.ctor != rb.ctor || strip(&ra.items) != strip(&rb.items) {
+                        out.fail("c20:row-differs", "loaded from .dig documents, the canonical and the re-laid-out text yield different items");
+                        return out;
+                    }
+                }
+                (Ok(Some(_)), Ok(None)) | (Ok(None), Ok(Some(_))) => {
+                    out.fail("c20:parse-verdict-differs", "embedded in .dig documents, one of the two texts loads and the other does not");
+                    return out;
+                }
+                _ => {}
+            }
+        }
         let p1 = parse(&r1.text);
         let p2 = parse(&r2.text);
         let (p1, p2) = match (p1, p2) {
